@@ -99,7 +99,7 @@ fn panic_site(msg: &str) -> String {
 
 /// Evaluate one case completely; pure (same input => same result) unless the subject is
 /// nondeterministic.
-fn eval_case(c: &Case, fresh_thread: bool) -> (Vec<Viol>, CaseStats) {
+fn eval_case(c: &Case, fresh: Option<&Vec<Result<String, String>>>) -> (Vec<Viol>, CaseStats) {
     let mut st = CaseStats::default();
     let mut out: Vec<Viol> = vec![];
     let hostile = c.hostile.clone().unwrap_or_default();
@@ -124,9 +124,8 @@ fn eval_case(c: &Case, fresh_thread: bool) -> (Vec<Viol>, CaseStats) {
     };
     let targets = targets_for(&c.view);
     st.mo_skipped = !c.view.motoko_ok;
-    let fresh = if fresh_thread { Some(gens::generate_on_fresh_thread(&c.did, &targets)) } else { None };
-    if fresh.is_some() {
-        st.gen_calls += targets.len() as u64;
+    if let Some(f) = fresh {
+        st.gen_calls += f.len() as u64;
     }
     let twin_checked = match &c.twin {
         Some(t) => match gens::front_end(t) {
@@ -158,8 +157,8 @@ fn eval_case(c: &Case, fresh_thread: bool) -> (Vec<Viol>, CaseStats) {
                 a
             }
         };
-        if let Some(fr) = &fresh {
-            match &fr[ti] {
+        if let Some(fr) = fresh {
+            match fr.get(ti).unwrap_or(&Err("missing".into())) {
                 Ok(f) if f == o1 => {}
                 Ok(f) => {
                     st.outcomes.push(format!("{}:nondeterministic", t.name()));
@@ -278,8 +277,29 @@ fn record(c: &Case, v: &Viol) {
     }
 }
 
-fn run_case(c: &Case, rep: &mut Report) {
-    let (v1, st) = eval_case(c, true);
+/// Outputs of all in-scope generators for every case of `chunk`, computed on one brand-new
+/// OS thread that walks the chunk in *reverse* order: the first program it sees runs on a
+/// thread without any history, the others with a history different from the worker's.
+fn second_thread(chunk: &[Case]) -> Vec<Vec<Result<String, String>>> {
+    std::thread::scope(|s| {
+        let h = s.spawn(|| {
+            let mut out: Vec<Vec<Result<String, String>>> = Vec::with_capacity(chunk.len());
+            for c in chunk.iter().rev() {
+                let targets = targets_for(&c.view);
+                out.push(match gens::front_end(&c.did) {
+                    Ok(ch) => targets.iter().map(|t| gens::generate(&ch, *t)).collect(),
+                    Err(e) => targets.iter().map(|_| Err(format!("front end: {e}"))).collect(),
+                });
+            }
+            out.reverse();
+            out
+        });
+        h.join().unwrap_or_else(|_| chunk.iter().map(|c| targets_for(&c.view).iter().map(|_| Err("second thread died".to_string())).collect()).collect())
+    })
+}
+
+fn run_case(c: &Case, fresh: &Vec<Result<String, String>>, rep: &mut Report) {
+    let (v1, st) = eval_case(c, Some(fresh));
     rep.evaluations += st.pairs;
     rep.transitions += st.gen_calls;
     rep.traces_validated += st.validated;
@@ -314,7 +334,7 @@ fn run_case(c: &Case, rep: &mut Report) {
     }
     if !v1.is_empty() {
         // re-check once: the same input must give the same observation
-        let (v2, _) = eval_case(c, false);
+        let (v2, _) = eval_case(c, None);
         let k2: Vec<&String> = v2.iter().map(|v| &v.key).collect();
         for v in &v1 {
             if v.clause == "nondeterministic" || k2.contains(&&v.key) {
@@ -524,7 +544,8 @@ fn main() {
         };
         let c = case_from(&body["case"]);
         let want_key = body["key"].as_str().unwrap_or("").to_string();
-        let (vs, _) = eval_case(&c, true);
+        let fresh = gens::generate_on_fresh_thread(&c.did, &targets_for(&c.view));
+        let (vs, _) = eval_case(&c, Some(&fresh));
         let hit = vs.iter().find(|v| mclib::engine::mk_key(&v.key) == want_key);
         match hit {
             Some(v) => {
@@ -542,7 +563,29 @@ fn main() {
     let levels = build_cases(tier);
     let mut scope = vec![];
     for (name, cs) in &levels {
-        let r = ctx.par_range(name, cs.len() as u64, 8, || (), |_, i, rep| run_case(&cs[i as usize], rep));
+        println!("LEVEL {name}: {} programs", cs.len());
+        const CH: usize = 8;
+        let nchunks = cs.len().div_ceil(CH) as u64;
+        let mut r = ctx.par_range(
+            name,
+            nchunks,
+            1,
+            || (),
+            |_, i, rep| {
+                let lo = i as usize * CH;
+                let chunk = &cs[lo..(lo + CH).min(cs.len())];
+                let fresh = second_thread(chunk);
+                for (c, f) in chunk.iter().zip(fresh.iter()) {
+                    run_case(c, f, rep);
+                }
+            },
+        );
+        // the level entry counts chunks; restate it in programs
+        if let Some(l) = r.levels.last_mut() {
+            let done = l["cases"].as_u64().unwrap_or(0);
+            l["chunks_of_8_programs"] = json!(done);
+            l["programs_total"] = json!(cs.len());
+        }
         let with_twin = cs.iter().filter(|c| c.twin.is_some()).count();
         scope.push(json!({"level": name, "programs": cs.len(), "with_benign_twin": with_twin}));
         rep.merge(r);
